@@ -430,7 +430,7 @@ def _c26_extra(tier, seed, native_run):
 
 
 EXTRA_TIERS['C26'] = _c26_extra
-GAPS['C26'] = ['AddSubtractComp, MuxComp, CrossProductComp, MatrixVectorProductComp, VectorMagnitudeComp, LinearSystemComp (LAPACK), SplineComp (interpolation tables): BOUNDED tier only (not proved)',
+GAPS['C26'] = ['MuxComp, CrossProductComp, MatrixVectorProductComp, LinearSystemComp (LAPACK), SplineComp (interpolation tables), and the declared partials of AddSubtractComp / VectorMagnitudeComp: BOUNDED tier only (not proved)', 'state carried between runs of one component instance (e.g. cached factorisations of LinearSystemComp): bounded tier',
                'EQConstraintComp / BalanceComp with shape () variables (the scalar branch of the normalisation)',
                'declared sparsity (rows/cols in setup/add_* methods) of DotProductComp is quoted in the lemma, not derived from add_product',
                'units: conversion happens in the framework (C04/C06), the components only pass unit strings on',
